@@ -200,6 +200,7 @@ type FaultReader struct {
 	At       int
 	WithData bool
 	Pieces   []int
+	Once     bool // fail a single Read at offset At, then carry on delivering
 	pos, pi  int
 	Hit      bool
 }
@@ -208,7 +209,7 @@ func (r *FaultReader) Read(p []byte) (int, error) {
 	if len(p) == 0 {
 		return 0, nil
 	}
-	if r.pos >= r.At {
+	if r.pos >= r.At && !(r.Once && r.Hit) {
 		r.Hit = true
 		return 0, ErrInjected
 	}
@@ -227,7 +228,7 @@ func (r *FaultReader) Read(p []byte) (int, error) {
 		}
 	}
 	end := len(r.Data)
-	if r.At < end {
+	if r.At < end && !(r.Once && r.Hit) {
 		end = r.At
 	}
 	if n > end-r.pos {
@@ -235,7 +236,7 @@ func (r *FaultReader) Read(p []byte) (int, error) {
 	}
 	copy(p, r.Data[r.pos:r.pos+n])
 	r.pos += n
-	if r.WithData && r.pos == r.At {
+	if r.WithData && r.pos == r.At && !(r.Once && r.Hit) {
 		r.Hit = true
 		return n, ErrInjected
 	}
